@@ -250,6 +250,9 @@ pub fn run_trials(m: &dyn Monitor, cfg: &Cfg) -> Stats {
                     let mut out = TrialOut::default();
                     out.trial = i;
                     let r = guarded(|| m.trial(cfg, i, &mut out));
+                    if crate::xq::peak() > 0 {
+                        out.maxi("exact_scalar_arena_entries_alive_at_once(max over trials)", crate::xq::peak() as f64);
+                    }
                     if let Err(p) = r {
                         if p.starts_with("XQ-BLOWN") {
                             out.inconclusive("exact scalar size cap hit");
